@@ -13,12 +13,18 @@ Next == UNCHANGED i
 
 OutOfModel(r) == r.status \in {"fuel", "type"}
 
+(* a failing `get` / `assert` names the source position of that construct: right file, *)
+(* right line, column inside the construct (judged when the program has exactly one)   *)
+PosOk(x, ob) == x.n = 0 \/ (ob.posfile = "main.ms" /\ ob.posline = x.line /\ x.lo <= ob.poscol /\ ob.poscol <= x.hi)
+
 (* what the specification demands of one observed execution *)
-Agree(r, ob) ==
+Agree(c, r, ob) ==
     IF r.status = "ok" THEN ob.exit = 0 /\ ob.out = r.out
     ELSE /\ ob.exit # 0
          /\ ob.out = r.out                 \* output frozen exactly at the failing statement
          /\ ob.fclass = r.status
+         /\ r.status = "nil" => PosOk(c.expect.get, ob)
+         /\ r.status = "assert" => PosOk(c.expect.assert, ob)
 
 (* properties of the specification itself, checked on every evaluated case *)
 SpecSane(r) ==
@@ -31,8 +37,9 @@ Judge ==
     /\ SpecSane(r)
     /\ IF OutOfModel(r) THEN PrintT("SKIP " \o ToJson([id |-> c.id, why |-> r.status]))
        ELSE \A k \in 1..Len(c.obs) :
-              Agree(r, c.obs[k]) \/
+              Agree(c, r, c.obs[k]) \/
               PrintT("DISAGREE " \o ToJson([id |-> c.id, path |-> c.obs[k].path,
                       exp_status |-> r.status, exp_out |-> r.out, exp_trace |-> r.ftrace,
-                      obs_exit |-> c.obs[k].exit, obs_out |-> c.obs[k].out, obs_fclass |-> c.obs[k].fclass]))
+                      obs_exit |-> c.obs[k].exit, obs_out |-> c.obs[k].out, obs_fclass |-> c.obs[k].fclass,
+                      obs_pos |-> <<c.obs[k].posfile, c.obs[k].posline, c.obs[k].poscol>>, expect |-> c.expect]))
 =============================================================================
